@@ -1751,7 +1751,7 @@ func matrixSequences(c *Ctx, mat *hsMaterial) (cases []Case) {
 }
 
 func runMatrix(c *Ctx) error {
-	c.Res.Rule = "two real cedar endpoints over an in-memory duplex pipe with a wire tap: the full 4^4 matrix of (client auth, server auth, client enc, server enc) levels x method-list shapes (equal, disjoint, overlapping in both orders, empty on either side, containing the unimplemented PASSWORD, PASSWORD only, both SCITOKENS and IDTOKENS, and four shapes where TWO methods can run: the first common one failing on the wire (FS through an address translator, TOKEN with a token signed by another key) or succeeding) x cipher lists (common / none) x integrity levels (OPTIONAL; REQUIRED on either side with and without a common cipher; NEVER), the client's command rotating over a real command, command 0 and none (auth-only); plus SEQUENCES of 2-3 handshakes against ONE long-lived server policy object (each connection a shallow copy of it), mixing a handshake whose first common method fails on the wire with handshakes that need exactly that method, each compared and judged as if it were alone; after success a canary message is exchanged each way; which method completed is read from the wire; outcome compared with the Lean model honestRun and with the property's decision table; exhaustive over the matrix for each shape; non-trivial = always (each cell distinct)"
+	c.Res.Rule = "two real cedar endpoints over an in-memory duplex pipe with a wire tap: the full 4^4 matrix of (client auth, server auth, client enc, server enc) levels x method-list shapes (equal, disjoint, overlapping in both orders, empty on either side, containing the unimplemented PASSWORD, PASSWORD only, both SCITOKENS and IDTOKENS, and four shapes where TWO methods can run: the first common one failing on the wire (FS through an address translator, TOKEN with a token signed by another key) or succeeding) x cipher lists (common / none / the same two ciphers in opposite orders on the two sides: the server's order decides) x integrity levels (OPTIONAL; REQUIRED on either side with and without a common cipher; NEVER), the client's command rotating over a real command, command 0 and none (auth-only); plus SEQUENCES of 2-3 handshakes against ONE long-lived server policy object (each connection a shallow copy of it), mixing a handshake whose first common method fails on the wire with handshakes that need exactly that method, each compared and judged as if it were alone; after success a canary message is exchanged each way; which method completed is read from the wire; outcome compared with the Lean model honestRun and with the property's decision table; exhaustive over the matrix for each shape; non-trivial = always (each cell distinct)"
 	defer quietStdout()()
 	mat, cleanup, err := hsPrepare(c)
 	if err != nil {
@@ -1775,6 +1775,8 @@ func runMatrix(c *Ctx) error {
 		{name: "disjoint", cm: cb, sm: []string{"PASSWORD"}, cc: aes, scs: aes, ok: cb},
 		{name: "pw-first", cm: []string{"CLAIMTOBE", "PASSWORD"}, sm: []string{"PASSWORD", "CLAIMTOBE"}, cc: aes, scs: aes, ok: cb},
 		{name: "no-cipher", cm: cb, sm: cb, cc: aes, scs: []string{"3DES"}, ok: cb},
+		// both sides list the same two ciphers in opposite orders: the SERVER's order decides (AES here)
+		{name: "cipher-order", cm: cb, sm: cb, cc: []string{"3DES", "AES"}, scs: []string{"AES", "3DES"}, ok: cb},
 	}
 	two := twoMethodShapes(mat)
 	extra := []pairShape{
